@@ -125,3 +125,17 @@ def type_repr(t, follow=True, seen=None):
     if t is Null:
         return "None"
     return getattr(t, "__name__", str(t))
+
+
+def shared_state_snapshot():
+    """deep snapshot of the module/class-level mutable state a generation must not write (frame monitor, assumption S5/S6 audit)"""
+    import copy
+    from json_to_models.dynamic_typing import registry as default_registry
+    from json_to_models.dynamic_typing.models_meta import AbsoluteModelRef
+    snap = {}
+    for name, g in GENERATORS.items():
+        snap["style:" + name] = copy.deepcopy({getattr(k, "__name__", str(k)): v for k, v in g.default_types_style.items()})
+    snap["registry.types"] = [t.__name__ for t in default_registry.types]
+    snap["registry.replaces"] = sorted((a.__name__, b.__name__) for a, b in default_registry.replaces)
+    snap["context"] = repr(getattr(AbsoluteModelRef.Context.data, "context", None))
+    return snap
